@@ -10,6 +10,7 @@ CONSTANTS
  KF_GuardOnVisibleOnly = FALSE
 KF_SurvivorsOnly = FALSE
 KF_RetryUnguarded = FALSE
+KF_CloneSwap = FALSE
 MaxRetry = 2
 INVARIANT C07_OneAtATime
 PROPERTIES C07_NoOpenAfterClose C07_GcStep C07_NoOpenOnBreak C12_GameBlindFixed C12_GameBlindAtOpen C08_PauseIff C08_SetUpEnough
